@@ -57,8 +57,10 @@ var notCovered = map[string][]string{
 	"C01": {"that setString produced the value denoted by the text (string reasoning, see C14); Precision 0 outside [MinExponent, MaxExponent] (the property gives no rule)"},
 	"C02": {"Sqrt's 'Inexact iff the root is not exactly representable' (accuracy of the iteration, see C11); exact values of Rounded/Clamped (checked only through implications, as the property prescribes)"},
 	"C03": {"trap independence of the composite functions rests on the nil-error induction meta-argument (DESIGN 8.6)"},
-	"C04": {"that an error-free iteration of Ln's power series makes progress (error exit proved only); 'slow is not hang'; the contents of strings (only their lengths are modelled: strlen of a string code, exact for constants, related through slicing, concatenation, conversion, strings.HasPrefix and strings.IndexByte); what a fmt.State, a database/sql source value or any other interface value does (interface method calls are unconstrained, type assertions with ok yield any value); the text produced; functions without contract are listed in DESIGN.md section 14"},
+	"C04": {"that an error-free iteration of Ln's power series makes progress (error exit proved only); 'slow is not hang'; what the parser makes of the bytes of its text (strings are codes with a length and bytes: strlen/strbyte, exact for constants, related through indexing, slicing, concatenation, conversions and append; strings.HasPrefix is uninterpreted, strings.IndexByte only ranged); what a fmt.State, a database/sql source value or any other interface value does (interface method calls are unconstrained, type assertions with ok yield any value); the text produced; functions without contract are listed in DESIGN.md section 14"},
 	"C07": {"Sqrt/Cbrt/Exp/Ln/Pow inherit 'fits' from the contract of their final round call"},
+	"C13": {"only the Compose/Decompose clause and the byte conversions under it are decided here (each function against its own contract over beval, the big-endian value of a byte slice; that Compose installs exactly the parts Decompose hands out follows from the two contracts read together); the text round trips (String/Text/MarshalText/Value/verbs through the parser) need the parser's value semantics, which is not under contract; SetFloat64/Float64 (strconv, floating point) not covered; beval is uninterpreted: that FillBytes/Bytes and SetBytes are inverse is math/big's"},
+	"C14": {"decided: the exact bytes of Append/Text/String/MarshalText for every decimal and verb (plain or scientific layout, the to-scientific-string choice with the documented zero exception, sign, special values, unknown verbs) over the decimal text of the coefficient and of the exponent (uf_dchar: math/big's and strconv's digits are assumed to be the decimal text). Not decided: the parser's acceptance set and 'no partial value' (only: a successful parse is well formed, the mantissa carries no second sign, the digit count handed to setExponent is right); Format's flags, width and padding (fmt.State is an interface); Scan/UnmarshalText acceptance"},
 	"C16": {"text and byte results (String/Text/Append/Format/Marshal*/GobEncode/Bytes/FillBytes/Bits/Size) have no-panic and representation contracts only - the bytes produced are math/big's and are compared with math/big only by the bounded differential check; SetBits, SetBytes, Rand, the decoders, ModSqrt, ProbablyPrime are specified up to sign/range/representation, not value; And/Or/Xor/Not/Lsh/Sqrt/MulRange/Binomial/SetBit/GCD/ModInverse are proved against uninterpreted math/big operation functions (wrapper plumbing, aliasing, representation), not against a bit-level definition; the unsafe bridge (inner/updateInner) and math/big are assumed contracts, the bridge exercised by the bounded differential check (incl. negative zeros handed back by math/big)"},
 	"C17": {"Float64/SetFloat64 (strconv and floating point)"},
 	"C18": {"schedules are not explored: data-race freedom follows from the proved sequential frame conditions by the stated meta-theorem; races inside math/big or the runtime are out of reach"},
